@@ -2,14 +2,16 @@
 from __future__ import annotations
 
 import ast
+import collections
 import copy
 import itertools
 import re._parser as sre_parse  # regex ASTs (stdlib)
+import textwrap
 
 from sa import source
 from sa.cfg import cfg_of, guards
 from sa.classes import is_logging_stmt
-from sa.minieval import CannotEval, ev
+from sa.minieval import CannotEval, Record, ev
 from sa.source import AnchorMissing, dotted, is_self_attr, last_attr, local_defs, params_of, short, u, walk_body
 
 _R = "esrally/driver/runner.py"
@@ -80,8 +82,20 @@ def root_name(node):
     return node.id if isinstance(node, ast.Name) else None
 
 
-def xev(e: ast.AST, env: dict):
-    """minieval.ev plus the string operations the parsers use to build paths / keys: str + str, sep.join(list), s.removeprefix(p), s[a:b], str(x) / repr(x) of a scalar or None.
+def own_nodes(fn):
+    """the nodes of a function's OWN body: nested function / class / lambda scopes appear as nodes but are never entered (source.walk_body enters a nested def that is a direct
+    statement of the body)."""
+    for st in getattr(fn, "body", []):
+        if isinstance(st, (ast.FunctionDef, ast.AsyncFunctionDef, ast.ClassDef)):
+            yield st
+        else:
+            yield from source.walk_local(st)
+
+
+def xev(e: ast.AST, env: dict, ctors=None):
+    """minieval.ev plus the string operations the parsers use to build paths / keys: str + str, sep.join(list), s.removeprefix(p), s[a:b], str(x) / repr(x) of a scalar or None;
+    the views of a dict (.items() / .keys() / .values()), collections.Counter(<iterable>) and - when `ctors` (RecordCtors) is given - the construction of a small record type of the
+    analysed code (NamedTuple / namedtuple / dataclass): the value is a tuple / record with the same equality, hash, ordering, unpacking and field access.
     Sub-expressions of these kinds are evaluated bottom-up on a fresh copy and replaced by their value; everything else is left to ev()."""
 
     class T(ast.NodeTransformer):
@@ -119,6 +133,25 @@ def xev(e: ast.AST, env: dict):
                     lo, hi, st = [ev(x, env) if x is not None else None for x in (n.slice.lower, n.slice.upper, n.slice.step)]
                     if isinstance(base, (str, list)) and all(x is None or (isinstance(x, int) and not isinstance(x, bool)) for x in (lo, hi, st)) and st != 0:
                         return ast.Constant(value=base[lo:hi:st])
+                elif isinstance(n, ast.Call) and dotted(n.func) == "next" and 1 <= len(n.args) <= 2 and not n.keywords and isinstance(n.args[0], ast.Call) and dotted(n.args[0].func) == "iter" \
+                        and len(n.args[0].args) == 1 and not n.args[0].keywords:
+                    seq = ev(n.args[0].args[0], env)
+                    if isinstance(seq, (list, tuple, dict, str)):
+                        if len(seq):
+                            return ast.Constant(value=next(iter(seq)))
+                        if len(n.args) == 2:
+                            return ast.Constant(value=ev(n.args[1], env))
+                elif isinstance(n, ast.Call) and isinstance(n.func, ast.Attribute) and n.func.attr in ("items", "keys", "values") and not n.args and not n.keywords:
+                    base = ev(n.func.value, env)
+                    if isinstance(base, dict):
+                        return ast.Constant(value=list(getattr(base, n.func.attr)()))
+                elif isinstance(n, ast.Call) and dotted(n.func) in ("Counter", "collections.Counter") and len(n.args) <= 1 and not n.keywords:
+                    src_ = ev(n.args[0], env) if n.args else []
+                    if isinstance(src_, (list, tuple, set, frozenset, str, dict)):
+                        return ast.Constant(value=collections.Counter(src_))
+                elif isinstance(n, ast.Call) and ctors is not None and dotted(n.func) is not None and not any(isinstance(a, ast.Starred) for a in n.args) \
+                        and all(k.arg is not None for k in n.keywords) and ctors.get(dotted(n.func)) is not None:
+                    return ast.Constant(value=ctors.get(dotted(n.func))([ev(a, env) for a in n.args], {k.arg: ev(k.value, env) for k in n.keywords}))
             except (CannotEval, TypeError):
                 pass
             return n
@@ -127,6 +160,215 @@ def xev(e: ast.AST, env: dict):
         return ev(T().visit(source.clone(e)), env)
     except TypeError as x:  # e.g. len(None): the extracted expression would raise on this value
         raise CannotEval(f"{u(e)[:60]}: {x}")
+
+
+# ---- small record types of the analysed code (NamedTuple / namedtuple / dataclass) as values -------------------------------------------------------------------------
+
+class _NT(tuple, Record):
+    """value of a named tuple: a tuple (same equality, hash, ordering, unpacking, indexing as the plain tuple of its members) whose members can also be read by field name."""
+
+    def __new__(cls, names, values):
+        self = tuple.__new__(cls, values)
+        self.fields = dict(zip(names, values))
+        return self
+
+    def __init__(self, *a, **k):
+        pass
+
+
+class _DC(Record):
+    """value of a dataclass instance: fields by name; equality / hash / ordering as the decorator's eq / frozen / order flags generate them."""
+
+    def __init__(self, cname, names, values, eq=True, frozen=False, order=False, unsafe_hash=False):
+        self.cname, self.names, self.fields = cname, list(names), dict(zip(names, values))
+        self.eq, self.frozen, self.order, self.unsafe_hash = eq, frozen, order, unsafe_hash
+
+    def _t(self):
+        return tuple(self.fields[n] for n in self.names)
+
+    def __eq__(self, other):
+        if not self.eq:
+            return self is other
+        return isinstance(other, _DC) and other.cname == self.cname and self._t() == other._t()
+
+    def __ne__(self, other):
+        return not self == other
+
+    def __hash__(self):
+        if not self.eq:
+            return id(self)
+        if not (self.frozen or self.unsafe_hash):
+            raise TypeError(f"unhashable type: '{self.cname}'")
+        return hash((self.cname, self._t()))
+
+    def _cmp(self, other, op):
+        if not (self.order and isinstance(other, _DC) and other.cname == self.cname):
+            raise TypeError(f"'{op}' not supported between instances of '{self.cname}' and '{getattr(other, 'cname', type(other).__name__)}'")
+        return self._t(), other._t()
+
+    def __lt__(self, other):
+        a, b = self._cmp(other, "<")
+        return a < b
+
+    def __le__(self, other):
+        a, b = self._cmp(other, "<=")
+        return a <= b
+
+    def __gt__(self, other):
+        a, b = self._cmp(other, ">")
+        return a > b
+
+    def __ge__(self, other):
+        a, b = self._cmp(other, ">=")
+        return a >= b
+
+    def __repr__(self):
+        return f"{self.cname}(" + ", ".join(f"{n}={self.fields[n]!r}" for n in self.names) + ")"
+
+
+def members_of(v) -> tuple:
+    """the member values of a detail: of a (named) tuple / list, of a record; () for anything else."""
+    return tuple(v) if isinstance(v, (tuple, list)) else (tuple(v.fields.values()) if isinstance(v, Record) else ())
+
+
+_RECORD_SPECIALS = {"__new__", "__init__", "__post_init__", "__eq__", "__ne__", "__hash__", "__lt__", "__le__", "__gt__", "__ge__", "__iter__", "__getitem__", "__len__", "__bool__",
+                    "__getattr__", "__getattribute__"}
+
+
+class RecordCtors:
+    """name -> constructor model for the small record types a module can see: classes deriving from typing.NamedTuple, `X = namedtuple("X", fields)`, @dataclass classes - defined in
+    the module or imported from another module of the package (loaded on first use). get(name) -> callable(args, kwargs) -> value, or None when the name is no such type.
+    A type whose construction / comparison is customised (own __new__ / __eq__ / __lt__ ..., default factories, several bases) is refused on use (CannotEval), never guessed."""
+
+    def __init__(self, module, on_use=None, depth=0):
+        self.module, self.on_use, self.depth = module, on_use, depth
+        self._made: dict = {}
+
+    @staticmethod
+    def _raw_class(module, cls):
+        """the class as WRITTEN (the parse-time normalisation N7 turns `x: T = v` into `x = v`; which members are annotated decides what a field is)."""
+        try:
+            lines = module.text.splitlines()[min([cls.lineno] + [d_.lineno for d_ in cls.decorator_list]) - 1:cls.end_lineno]
+            raw = ast.parse(textwrap.dedent("\n".join(lines))).body[0]
+            return raw if isinstance(raw, ast.ClassDef) and raw.name == cls.name else None
+        except (SyntaxError, IndexError, AttributeError):
+            return None
+
+    def _definition(self, name):
+        """(kind, node, module) of the top-level definition `name` refers to."""
+        m = self.module
+        if "." in name:
+            head, _, rest = name.partition(".")
+            tgt = m.imports.get(head)
+            if tgt is None or "." in rest or self.depth > 1:
+                return None
+            rel = tgt.replace(".", "/") + ".py"
+            if not m.repo.exists(rel):
+                return None
+            return RecordCtors(m.repo.module(rel), self.on_use, self.depth + 1)._definition(rest)
+        for n in m.tree.body:
+            if isinstance(n, ast.ClassDef) and n.name == name:
+                return ("class", n, m)
+            if isinstance(n, ast.Assign) and len(n.targets) == 1 and isinstance(n.targets[0], ast.Name) and n.targets[0].id == name and isinstance(n.value, ast.Call) \
+                    and dotted(n.value.func) in ("namedtuple", "collections.namedtuple"):
+                return ("namedtuple", n.value, m)
+        tgt = m.imports.get(name)
+        if tgt and "." in tgt and self.depth <= 1 and not any(isinstance(n, (ast.FunctionDef, ast.AsyncFunctionDef)) and n.name == name for n in m.tree.body):
+            modpath, _, nm = tgt.rpartition(".")
+            rel = modpath.replace(".", "/") + ".py"
+            if modpath.split(".")[0] == m.modname.split(".")[0] and m.repo.exists(rel):
+                return RecordCtors(m.repo.module(rel), self.on_use, self.depth + 1)._definition(nm)
+        return None
+
+    def get(self, name):
+        if name not in self._made:
+            self._made[name] = self._make(name)
+        return self._made[name]
+
+    def _make(self, name):
+        d = self._definition(name)
+        if d is None:
+            return None
+        kind, node, mod = d
+        made = self._make_from(name, kind, node, mod)
+        if made is not None and self.on_use is not None and mod is not self.module:
+            self.on_use(mod)  # the verdict depends on that module too
+        return made
+
+    def _make_from(self, name, kind, node, mod):
+
+        def refuse(why):
+            def ctor(args, kwargs):
+                raise CannotEval(f"{name}: {why}")
+            return ctor
+
+        def binder(cname, names, defaults, make):
+            def ctor(args, kwargs):
+                if len(args) > len(names) or any(k not in names for k in kwargs) or any(k in names[:len(args)] for k in kwargs):
+                    raise CannotEval(f"{cname}(..): arguments do not fit the fields {names}")
+                vals = []
+                for i, f_ in enumerate(names):
+                    if i < len(args):
+                        vals.append(args[i])
+                    elif f_ in kwargs:
+                        vals.append(kwargs[f_])
+                    elif f_ in defaults:
+                        vals.append(copy.deepcopy(defaults[f_]))
+                    else:
+                        raise CannotEval(f"{cname}(..): no value for the field {f_}")
+                return make(names, vals)
+            return ctor
+
+        if kind == "namedtuple":
+            a = node.args
+            try:
+                spec = ev(a[1], {}) if len(a) >= 2 else ev(next(k.value for k in node.keywords if k.arg == "field_names"), {})
+                names = spec.replace(",", " ").split() if isinstance(spec, str) else list(spec)
+                dflt = next((ev(k.value, {}) for k in node.keywords if k.arg == "defaults"), None)
+            except (CannotEval, StopIteration, TypeError):
+                return refuse("the field names are not literals")
+            if not all(isinstance(x, str) for x in names) or any(k.arg not in ("field_names", "defaults", "typename") for k in node.keywords) or len(a) > 2:
+                return refuse("namedtuple() with options that are not modelled")
+            dflt = list(dflt) if dflt is not None else []
+            return binder(name, names, dict(zip(names[len(names) - len(dflt):], dflt)), lambda ns, vs: _NT(ns, vs))
+        raw = self._raw_class(mod, node)
+        if raw is None:
+            return None
+        bases = [dotted(b) for b in raw.bases]
+        decs = [(dotted(x.func) if isinstance(x, ast.Call) else dotted(x), x) for x in raw.decorator_list]
+        is_nt = bases and all(b in ("NamedTuple", "typing.NamedTuple") for b in bases)
+        dcs = [x for d_, x in decs if d_ in ("dataclass", "dataclasses.dataclass")]
+        if not is_nt and not (dcs and not bases and len(decs) == 1):
+            return None if not (dcs or any(b in ("NamedTuple", "typing.NamedTuple") for b in bases if b)) else refuse("a record type with further bases / decorators")
+        special = sorted({s.name for s in raw.body if isinstance(s, (ast.FunctionDef, ast.AsyncFunctionDef))} & _RECORD_SPECIALS)
+        if special or raw.keywords:
+            return refuse(f"construction / comparison customised ({', '.join(special) or 'class keywords'})")
+        names, defaults = [], {}
+        for s_ in raw.body:
+            if isinstance(s_, ast.AnnAssign) and isinstance(s_.target, ast.Name):
+                ann = s_.annotation.value if isinstance(s_.annotation, ast.Subscript) else s_.annotation
+                if dotted(ann) in ("ClassVar", "typing.ClassVar"):
+                    continue
+                names.append(s_.target.id)
+                if s_.value is not None:
+                    try:
+                        defaults[s_.target.id] = ev(s_.value, {})
+                    except CannotEval:
+                        return refuse(f"default of the field {s_.target.id} is not a literal")
+        if not names:
+            return refuse("no fields")
+        if is_nt:
+            return binder(name, names, defaults, lambda ns, vs: _NT(ns, vs))
+        flags = {"eq": True, "frozen": False, "order": False, "unsafe_hash": False}
+        if isinstance(dcs[0], ast.Call):
+            if dcs[0].args or any(k.arg is None or not isinstance(k.value, ast.Constant) or not isinstance(k.value.value, bool) for k in dcs[0].keywords):
+                return refuse("dataclass options that are not literals")
+            for k in dcs[0].keywords:
+                if k.arg in flags:
+                    flags[k.arg] = k.value.value
+                elif k.arg not in ("slots", "repr", "init", "kw_only", "match_args", "weakref_slot") or (k.arg in ("init", "kw_only") and k.value.value != (k.arg == "init")):
+                    return refuse(f"dataclass option {k.arg}")
+        return binder(name, names, defaults, lambda ns, vs: _DC(name, ns, vs, **flags))
 
 
 # ---- extracted helpers are analysed together with their callers ---------------------------------------------------------------------------------------------------
@@ -283,6 +525,11 @@ class _Opaque:
         return f"<uninterpreted {self.what}>"
 
 
+def has_opaque_value(v) -> bool:
+    return isinstance(v, _Opaque) or (isinstance(v, dict) and any(has_opaque_value(x) for x in list(v.keys()) + list(v.values()))) \
+        or (isinstance(v, (list, tuple, set, frozenset)) and any(has_opaque_value(x) for x in v)) or (isinstance(v, Record) and any(has_opaque_value(x) for x in v.fields.values()))
+
+
 _MUTATORS = ("update", "add", "append", "extend", "pop", "setdefault", "clear", "discard", "remove", "insert", "popitem", "sort", "reverse")
 _JUMPS = (ast.Return, ast.Raise, ast.Break, ast.Continue)
 
@@ -295,11 +542,12 @@ class Machine:
                 raises CannotEval. (If the statement may jump - return / raise / break / continue inside - the run cannot go on soundly: CannotEval.)
     loop_feed: {id(For node): values} - that loop iterates over the given values instead of its own iterable (an event stream in place of the ijson parser); every iteration
                is recorded in .trace ({'item', 'stores': [(container, key, value)], 'broke'}).
-    on_call:   hook (call node, env, machine) -> value | NotImplemented for calls the rule supplies the result of (the selective parse, json.loads of the probe response)."""
+    on_call:   hook (call node, env, machine) -> value | NotImplemented for calls the rule supplies the result of (the selective parse, json.loads of the probe response).
+    ctors:     RecordCtors - constructions of NamedTuple / namedtuple / dataclass types of the analysed code evaluate to tuples / records."""
 
-    def __init__(self, expand=None, strict=True, loop_feed=None, on_call=None, budget=40000):
+    def __init__(self, expand=None, strict=True, loop_feed=None, on_call=None, budget=40000, ctors=None):
         self.expand = expand if expand is not None else (lambda e: e)
-        self.strict, self.loop_feed, self.on_call, self.budget = strict, loop_feed or {}, on_call, budget
+        self.strict, self.loop_feed, self.on_call, self.budget, self.ctors = strict, loop_feed or {}, on_call, budget, ctors
         self.trace: list = []
         self.cur = None
         self.depth = 0
@@ -312,7 +560,7 @@ class Machine:
         except (CannotEval, TypeError, StopIteration):
             pass
         try:
-            return xev(e, env)
+            return xev(e, env, self.ctors)
         except StopIteration:
             raise CannotEval(f"{short(e, 50)}: next() of an empty iterator")
 
@@ -652,13 +900,17 @@ def run(chk):
         "no JSON value's end is delimited by a regex character class / find on a structural character (regex AST query) and offsets found in one text are only applied to that same text; "
         "parse() is interpreted on the ijson event streams of small documents (same leaf at several depths, empty / nested lists, falsy members, dotted member keys) and must return what "
         "a full parse has for the requested paths, stopping no earlier than when everything requested was seen. "
-        "Orderings over the collected (status, reason) error details are evaluated over the details the extraction produces for representative failed items and must be total (F29); "
+        "Orderings over the collected (status, reason) error details are evaluated over the details the extraction produces for representative failed items and must be total (F29) - "
+        "the extraction method is interpreted as a whole, a detail may be a plain tuple or a NamedTuple / namedtuple / dataclass of the module (modelled as a value with the same "
+        "equality, hash and ordering), orderings of collections.Counter views over the details are evaluated too; "
+        "every keyed read of a selective-parse result (the parse() call, a helper that returns it unchanged, a helper the result is handed to) must be among the paths that call requested; "
         "the pattern, locator literal and decoder offset of the cursor search are evaluated on seven spellings of the member (white space around the colon) and must point at the "
         "value's opening bracket (F30); once a cursor is stored in the shared body, every path to ANY exit of the page function (exception edges included) removes it again (F28). "
         "Known findings: fast-path gate does not summarise the _shards.failed disjunct (F10; also hides a 404 not_found delete item); the cursor key is located by a "
         "nesting-insensitive text search (F9b)."
     )
     chk.not_decided = "equivalence on all JSON texts, hit/page accounting arithmetic, ijson's own behaviour."
+    CTORS = RecordCtors(rn, on_use=chk.use)
     BI = rn.cls("BulkIndex")
     bm = rn.methods(BI)
     det, simp = bm.get("detailed_stats"), bm.get("simple_stats")
@@ -718,15 +970,21 @@ def run(chk):
     if len(dresp) != 1 or len(dparams) != 2:
         raise AnchorMissing("detailed_stats(self, params, response): the parameter whose `items` are counted")
     dresp = dresp[0]
-    # the method that extracts the error details of ONE failed item, by role: two parameters besides self, details are added (.add / .append) to one of them, and it is
-    # reachable through self.m() calls from BOTH counting paths (its name is used only to choose among several such methods)
+    # the function that extracts the error details of ONE failed item, by role: two parameters besides self, details are added (.add / .append) to one of them, and it is
+    # reachable from BOTH counting paths through calls of methods of the class (self / cls / the class name) and of module-level functions (its name is used only to choose
+    # among several such functions)
+    def bulk_callee(c):
+        """the method of BulkIndex / module-level function a call resolves to (None: something else)."""
+        t = expand1.target(c)
+        return t if isinstance(t, ast.FunctionDef) and (t in bm.values() or source.parent(t) is rn.tree) else None
+
     def self_closure(f, seen=None):
         seen = seen if seen is not None else {}
-        if f.name not in seen:
-            seen[f.name] = f
+        if id(f) not in seen:
+            seen[id(f)] = f
             for n in ast.walk(f):
-                if isinstance(n, ast.Call) and is_self_attr(n.func) and n.func.attr in bm:
-                    self_closure(bm[n.func.attr], seen)
+                if isinstance(n, ast.Call) and bulk_callee(n) is not None:
+                    self_closure(bulk_callee(n), seen)
         return seen
 
     def adds_to_a_parameter(m_):
@@ -735,10 +993,34 @@ def run(chk):
                                     and n.func.value.id in ps for n in walk_body(m_))
 
     reach_det, reach_simp = self_closure(det), self_closure(simp)
-    xd_candidates = [m_ for name_, m_ in bm.items() if m_ not in (det, simp) and name_ in reach_det and name_ in reach_simp and adds_to_a_parameter(m_)]
+    xd_candidates = [m_ for k_, m_ in reach_det.items() if m_ not in (det, simp) and k_ in reach_simp and adds_to_a_parameter(m_)]
     xd_candidates = [m_ for m_ in xd_candidates if m_.name == "extract_error_details"] or xd_candidates
     XD = xd_candidates[0] if len(xd_candidates) == 1 else None
-    XD_NAME = XD.name if XD is not None else "extract_error_details"
+
+    # the same role in its PURE shape: a function with one parameter (the item) that RETURNS the detail, the counting paths add its result: <collection>.add(<that call>)
+    def adds_result_of(n):
+        """the function whose result the statement-level call n adds to a collection held in a local (None: n is no such call)."""
+        if isinstance(n, ast.Call) and isinstance(n.func, ast.Attribute) and n.func.attr in ("add", "append") and isinstance(n.func.value, ast.Name) and len(n.args) == 1 and not n.keywords \
+                and isinstance(n.args[0], ast.Call):
+            g_ = bulk_callee(n.args[0])
+            if g_ is not None and len([p_ for p_ in params_of(g_) if p_ not in ("self", "cls")]) == 1 and not g_.args.kwonlyargs:
+                return g_
+        return None
+
+    XD_PURE = None
+    if XD is None and not xd_candidates:
+        pure = [{id(adds_result_of(n)): adds_result_of(n) for f_ in reach.values() for n in ast.walk(f_) if adds_result_of(n) is not None} for reach in (reach_det, reach_simp)]
+        both = [g_ for k_, g_ in pure[0].items() if k_ in pure[1]]
+        XD_PURE = both[0] if len(both) == 1 else None
+    XD_NAME = XD.name if XD is not None else (XD_PURE.name if XD_PURE is not None else "extract_error_details")
+
+    def extracts_details(c):
+        """the statement-level call c extracts the error details of one item (either shape)."""
+        if XD is not None:
+            return bulk_callee(c) is XD
+        if XD_PURE is not None:
+            return adds_result_of(c) is XD_PURE
+        return is_self_attr(c.func, XD_NAME)
     OK_ITEM = {"_index": "i", "_id": "1", "status": 201, "_shards": {"total": 2, "successful": 2, "failed": 0}}
     BAD_ITEMS = [{"_index": "i", "_id": "2", "status": 429, "error": {"type": "x", "reason": "r"}}, {"_index": "i", "_id": "3", "status": 500, "error": {"type": "y", "reason": "q"}}]
 
@@ -763,11 +1045,11 @@ def run(chk):
             if dotted(c.func) in ("json.loads", "json.load"):
                 full_parses.append(c)
                 return copy.deepcopy(resp)
-            if is_self_attr(c.func, XD_NAME):
+            if extracts_details(c):
                 details.append(c)  # observed only: the machine interprets the method like any other helper
             return NotImplemented
 
-        m = Machine(expand1, strict=False, on_call=on_call)
+        m = Machine(expand1, strict=False, on_call=on_call, ctors=CTORS)
         if f is simp:
             env = {sp[1]: len(resp["items"]) if bulk_size is None else bulk_size, sp[2]: unit}
         else:
@@ -805,7 +1087,7 @@ def run(chk):
             return ("err" if c == ERRC else "ok", k.value)
 
         def is_details(s):
-            return isinstance(s, ast.Expr) and isinstance(s.value, ast.Call) and last_attr(s.value.func) == XD_NAME
+            return isinstance(s, ast.Expr) and isinstance(s.value, ast.Call) and (last_attr(s.value.func) == XD_NAME or (XD_PURE is not None and adds_result_of(s.value) is XD_PURE))
 
         # backward slice of the classification: the names the counting decision depends on (by data flow and control dependence), instead of guessing relevance from variable names
         body_stmts = [n for st_ in L.body for n in source.walk_local(st_) if isinstance(n, ast.stmt)]
@@ -891,7 +1173,7 @@ def run(chk):
             no_loop = None
         except AnchorMissing as e:
             L, classify, no_loop = f, None, str(e)
-        if XD is None and f is det:
+        if XD is None and XD_PURE is None and f is det:
             chk.unknown("O19.1", "the method of BulkIndex that extracts the error details of a failed item (two parameters, adds to one of them, called from both counting paths) "
                                  f"could not be located ({len(xd_candidates)} candidates)", BI)
         rows = []
@@ -915,8 +1197,8 @@ def run(chk):
             got = "failed" if (c["err"], c["ok"]) == (1, 0) else ("succeeded" if (c["err"], c["ok"]) == (0, 1) else f"err+={c['err']} ok+={c['ok']}")
             rows.append(got)
             # (where the extraction of the details could not be located, only the counting is decided - the missing anchor is reported above, never as a violation)
-            ok = got == ("failed" if want_fail else "succeeded") and (not want_fail or XD is None or c["details"] == 1)
-            chk.ob("O19.1", inst, ok, L, f"counted as {got}" + (f", error details extracted {c['details']}x" if want_fail and XD is not None else "") + f"; full parse: {'failed' if want_fail else 'succeeded'}",
+            ok = got == ("failed" if want_fail else "succeeded") and (not want_fail or (XD is None and XD_PURE is None) or c["details"] == 1)
+            chk.ob("O19.1", inst, ok, L, f"counted as {got}" + (f", error details extracted {c['details']}x" if want_fail and (XD is not None or XD_PURE is not None) else "") + f"; full parse: {'failed' if want_fail else 'succeeded'}",
                    key=f"{_R}:BulkIndex.{f.name}:item:{item['status']}|{'absent' if '_shards' not in item else item['_shards']['failed']}" + ("" if ("error" in item) == (item["status"] > 299) else "|odd-error"))
         tables[f.name] = rows
     if None not in (tables.get("detailed_stats") or [None]) + (tables.get("simple_stats") or [None]):
@@ -1012,40 +1294,41 @@ def run(chk):
              "a failed item may carry no reason (detail (status, None)) next to an item of the same status that carries one (detail (status, str))", 1,
              "two failed items share a status and only one has an error reason (delete of an absent document + update of an absent document; `reason: null`): TypeError from comparing "
              "None with str in BOTH the detailed and the fast path - neither reports success / error counts at all")
-    xd = XD
+    xd = XD if XD is not None else XD_PURE
     if xd is None:
-        raise AnchorMissing("BulkIndex.extract_error_details (the method that adds the details of one failed item to a collection)")
-    # roles of its parameters by use: the collection is the one details are added to, the item is the other one
+        raise AnchorMissing("BulkIndex.extract_error_details (the method / module-level function that adds the details of one failed item to a collection, or returns them to "
+                            "counting paths that add them)")
+    # roles of its parameters by use: the collection is the one details are added to, the item is the other one (pure shape: the item is the only one)
     xparams = [p_ for p_ in params_of(xd) if p_ not in ("self", "cls")]
-    coll = [p_ for p_ in xparams if any(isinstance(n, ast.Call) and isinstance(n.func, ast.Attribute) and n.func.attr in ("add", "append") and isinstance(n.func.value, ast.Name)
-                                         and n.func.value.id == p_ for n in walk_body(xd))]
-    if len(coll) != 1 or len(xparams) != 2:
-        raise AnchorMissing("extract_error_details(<collection the details are added to>, <item>)")
-    DCOLL = coll[0]
-    DITEM = [p_ for p_ in xparams if p_ != DCOLL][0]
+    if XD is not None:
+        coll = [p_ for p_ in xparams if any(isinstance(n, ast.Call) and isinstance(n.func, ast.Attribute) and n.func.attr in ("add", "append") and isinstance(n.func.value, ast.Name)
+                                             and n.func.value.id == p_ for n in walk_body(xd))]
+        if len(coll) != 1 or len(xparams) != 2:
+            raise AnchorMissing("extract_error_details(<collection the details are added to>, <item>)")
+        DCOLL = coll[0]
+        DITEM = [p_ for p_ in xparams if p_ != DCOLL][0]
+    else:
+        DCOLL, DITEM = None, xparams[0]
+    add_methods = {n.func.attr for n in walk_body(xd) if isinstance(n, ast.Call) and isinstance(n.func, ast.Attribute) and n.func.attr in ("add", "append") and isinstance(n.func.value, ast.Name)
+                   and n.func.value.id == DCOLL}
+    expand9 = Expander(rn, BI, [n for n in ast.walk(xd) if isinstance(n, ast.FunctionDef) and n is not xd])
 
     def details_of(item):
-        """the details the extraction adds for one failed item: its straight-line body interpreted on the item (assignments, if/else, <collection>.add(<expr>))."""
-        env = {DITEM: copy.deepcopy(item)}
-        added = []
-
-        def block(stmts):
-            for s in stmts:
-                if isinstance(s, ast.Pass) or is_logging_stmt(s) or (isinstance(s, ast.Expr) and isinstance(s.value, ast.Constant)):
-                    continue
-                if isinstance(s, ast.Assign) and len(s.targets) == 1 and isinstance(s.targets[0], ast.Name):
-                    env[s.targets[0].id] = ev(s.value, env)
-                elif isinstance(s, ast.If):
-                    block(s.body if ev(s.test, env) else s.orelse)
-                elif isinstance(s, ast.Expr) and isinstance(s.value, ast.Call) and isinstance(s.value.func, ast.Attribute) and s.value.func.attr in ("add", "append") \
-                        and isinstance(s.value.func.value, ast.Name) and s.value.func.value.id == DCOLL and len(s.value.args) == 1 and not s.value.keywords:
-                    v_ = ev(s.value.args[0], env)
-                    hash(v_)
-                    added.append(v_)
-                else:
-                    raise CannotEval(f"statement `{short(s, 60)}`")
-
-        block(xd.body)
+        """the details the extraction adds for one failed item: the method interpreted as a whole (Machine, strict: assignments, if / elif / else chains, guard clauses, helpers it
+        calls, <collection>.add / .append(<expr>)) on the item and an empty collection of the kind it adds to; a detail may be a plain tuple or a small record type of the module
+        (NamedTuple / namedtuple / dataclass), which evaluates to a value with the same equality, hash and ordering."""
+        box = set() if add_methods == {"add"} else []
+        m = Machine(expand9, strict=True, ctors=CTORS)
+        sig = m.run(xd.body, {DITEM: copy.deepcopy(item), DCOLL: box} if DCOLL is not None else {DITEM: copy.deepcopy(item)})
+        if sig is not None and sig[0] != "return":
+            raise CannotEval(f"{xd.name} leaves by {sig[0]} for the item {item!r}")
+        if DCOLL is None and sig is None:
+            raise CannotEval(f"{xd.name} returns no detail for the item {item!r}")
+        added = list(box) if DCOLL is not None else [sig[1]]
+        for v_ in added:
+            hash(v_)  # details are collected in a set by the callers
+            if has_opaque_value(v_):
+                raise CannotEval(f"a detail {xd.name} adds is not interpreted")
         return added
 
     # representative FAILED items: with a reason, without an error object (delete of an absent document; item failed because of its shards), error without reason, `reason: null`,
@@ -1092,8 +1375,10 @@ def run(chk):
             """the names (locals / parameters of fn) handed to extract_error_details as the collection - directly or through helper methods of the class that pass them on."""
             out = set()
             for n in walk_body(fn):
-                if isinstance(n, ast.Call) and is_self_attr(n.func) and n.func.attr in bm:
-                    callee = bm[n.func.attr]
+                if XD_PURE is not None and adds_result_of(n) is XD_PURE:
+                    out.add(n.func.value.id)  # pure shape: the local the returned detail is added to
+                elif isinstance(n, ast.Call) and bulk_callee(n) is not None:
+                    callee = bulk_callee(n)
                     roles = {DCOLL} if callee is xd else ((detail_collections(callee, depth + 1) & set(params_of(callee))) if depth < 3 and callee is not fn else set())
                     out |= {a.id for p_, a in source.bind_args(n, callee).items() if p_ in roles and isinstance(a, ast.Name)}
             return out
@@ -1113,10 +1398,10 @@ def run(chk):
             for n in walk_body(fn):
                 if not isinstance(n, ast.Call):
                     continue
-                if is_self_attr(n.func) and n.func.attr in bm and n.func.attr != xd.name:
-                    for p_, a in source.bind_args(n, bm[n.func.attr]).items():
+                if bulk_callee(n) is not None and bulk_callee(n) is not xd:
+                    for p_, a in source.bind_args(n, bulk_callee(n)).items():
                         if isinstance(a, ast.Name) and a.id == P:
-                            todo.append((bm[n.func.attr], p_))
+                            todo.append((bulk_callee(n), p_))
                 if dotted(n.func) in ("sorted", "min", "max") and len(n.args) == 1:
                     subject, what = n.args[0], dotted(n.func)
                 elif isinstance(n.func, ast.Attribute) and n.func.attr == "sort" and not n.args:
@@ -1145,7 +1430,7 @@ def run(chk):
                         clash = (e1, e2)
                         break
                 chk.ob("O19.9", f"{fn.name}: {what}() over the error details never compares a missing reason (None) with a reason (str)", clash is None, n,
-                       short(n, 90) + (f" — total over {len(elems)} representative details, {sum(1 for e_ in elems if isinstance(e_, tuple) and None in e_)} of them without a reason"
+                       short(n, 90) + (f" — total over {len(elems)} representative details, {sum(1 for e_ in elems if any(x_ is None for x_ in members_of(e_)))} of them without a reason"
                                        if clash is None else f" — ordering the details {clash[0]!r} and {clash[1]!r} raises TypeError: no statistics at all for this bulk in either path"),
                        key=f"{_R}:BulkIndex.{fn.name}:ordering-of-details:{what}")
     # ---- O19.2 value boundaries ----------------------------------------------------------------------------------------------------------------------------
@@ -1519,6 +1804,13 @@ def run(chk):
 
         if not rq or not ex_:
             chk.unknown("O19.6", f"{fname}: the page request (await self._raw_search(..)) or the call of self.{extractor}(..) could not be located in the page loop", PL_)
+        elif ok and rarg is not None and (rarg is rq[0] or rarg is rq[0].value):
+            # the awaited request itself is the argument: its own response by construction
+            chk.ob("O19.6", f"{fname}: one request per page, its own response handed to the extractor", True, ex_[0], "the page request is the extractor's argument")
+        elif ok and (resp is None or rarg is None):
+            # located, but how the response travels from the request to the extractor is not a plain local: not recognised (never a verdict)
+            chk.unknown("O19.6", f"{fname}: the response of the page request is not bound to a plain local / the extractor's response argument could not be located "
+                                 f"(`{short(rs_, 60)}`)", ex_[0])
         else:
             ok = ok and resp is not None and len(loop_stores(resp)) == 1 and isinstance(rarg, ast.Name) and rarg.id == resp \
                 and gq.dominated_by_nodes(gq.node_of(ex_[0]), [gq.node_of(rq[0])]) and not gq.path_exists(gq.node_of(ex_[0]), gq.node_of(rq[0]), avoid=[gq.node_of(PL_)])
@@ -1771,52 +2063,277 @@ def run(chk):
     chk.rule("O19.8", "every key a caller reads from the result of parse(text, props, lists, objects) is among the paths it requested in that call (a path that was not requested is "
              "never extracted: the read silently yields its default while a full parse has the value)", 20,
              "a statistic present in the response (e.g. _shards.skipped) is reported as 0 / absent by the lazy path")
-    n8 = 0
-    for fn in [n for n in ast.walk(rn.tree) if isinstance(n, (ast.FunctionDef, ast.AsyncFunctionDef))]:
-        for asg in [n for n in walk_body(fn) if isinstance(n, ast.Assign) and len(n.targets) == 1 and isinstance(n.targets[0], ast.Name) and isinstance(n.value, ast.Call)
-                    and isinstance(n.value.func, ast.Name) and n.value.func.id == "parse" and source.enclosing_func(n) is fn]:
-            var = asg.targets[0].id
-            fdefs_ = local_defs(fn)
-            req = set()
-            evaluable = True
-            for a_ in asg.value.args[1:] + [k.value for k in asg.value.keywords]:
-                try:
-                    v_ = ev(source.inline_node(a_, fdefs_, no_calls=True), {})
-                    if v_ is not None:
-                        req |= set(v_)
-                    if isinstance(a_, ast.Name):
-                        # a list built up step by step: everything that MAY have been appended / extended counts as requested
-                        for m_ in walk_body(fn):
-                            if isinstance(m_, ast.Call) and isinstance(m_.func, ast.Attribute) and isinstance(m_.func.value, ast.Name) and m_.func.value.id == a_.id and m_.args:
-                                if m_.func.attr == "append":
-                                    req.add(ev(source.inline_node(m_.args[0], fdefs_, no_calls=True), {}))
-                                elif m_.func.attr == "extend":
-                                    req |= set(ev(source.inline_node(m_.args[0], fdefs_, no_calls=True), {}))
-                except (CannotEval, TypeError):
-                    evaluable = False
-            if not evaluable:
-                chk.adv("O19.8", f"{fn.name}: the paths requested from parse() are not a literal list (reads of `{var}` not cross-checked)", asg)
+    # Roles by data flow: a SOURCE is an expression whose value is the dict a parse() call returned, unchanged - the call itself, the (awaited) call of a helper of this module
+    # (function nested in the same / an enclosing function, method of the same class, module-level function) every return of which is such a source, or a local bound only to such
+    # sources and never updated in place. What a source REQUESTS is evaluated from the argument lists of the parse() call behind it (parameters of the helper replaced by the
+    # arguments of the call that reaches it; several returns / bindings: what all of them request). A READ is <name>.get(<key>[, default]) / <name>[<key>] on a name bound to a
+    # source (reached from the binding without re-binding), the same directly on a source expression, or on the parameter of a helper the name is handed to.
+    _FUNCS = (ast.FunctionDef, ast.AsyncFunctionDef)
+    pf8 = rn.func("parse")
+    pp8 = params_of(pf8)
+    n8 = [0]
+
+    def methods_of(cls, depth=0):
+        """own methods of a class of this module, then those of its bases defined in this module."""
+        out = {}
+        for b in cls.bases if depth < 4 else []:
+            bc = rn.index().get(dotted(b) or "")
+            if isinstance(bc, ast.ClassDef) and bc is not cls:
+                out.update(methods_of(bc, depth + 1))
+        out.update(rn.methods(cls))
+        return out
+
+    def callee_of(call, fn):
+        """the function of this module a call made inside fn resolves to (None: not resolved)."""
+        f = call.func
+        if isinstance(f, ast.Name):
+            for scope in [fn] + [a for a in source.ancestors(fn) if isinstance(a, _FUNCS)]:
+                if f.id in params_of(scope) or any(isinstance(n, ast.Name) and isinstance(n.ctx, ast.Store) and n.id == f.id for n in own_nodes(scope)):
+                    return None  # a local / parameter of that name
+                for n in own_nodes(scope):
+                    if isinstance(n, _FUNCS) and n.name == f.id:
+                        return n
+            t = rn.index().get(f.id)
+            return t if isinstance(t, _FUNCS) else None
+        if isinstance(f, ast.Attribute) and isinstance(f.value, ast.Name):
+            cls = source.enclosing_class(fn)
+            if cls is not None and f.value.id in ("self", "cls", cls.name):
+                return methods_of(cls).get(f.attr)
+        return None
+
+    def module_paths(name):
+        """the literal list / tuple / set of texts bound ONCE to `name` at module level and never updated (no other binding, no in-place update, no `global`) - else None."""
+        v_ = rn.module_constant(name)
+        if not isinstance(v_, (ast.List, ast.Tuple, ast.Set)) or not all(isinstance(x, ast.Constant) and isinstance(x.value, str) for x in v_.elts):
+            return None
+        n_bind = 0
+        for n in ast.walk(rn.tree):
+            if isinstance(n, ast.Name) and n.id == name and isinstance(n.ctx, (ast.Store, ast.Del)):
+                n_bind += 1
+            elif isinstance(n, ast.Global) and name in n.names:
+                return None
+            elif isinstance(n, ast.Name) and n.id == name:
+                p_ = source.parent(n)
+                if (isinstance(p_, ast.Attribute) and p_.attr in _MUTATORS) or (isinstance(p_, ast.Subscript) and p_.value is n and isinstance(p_.ctx, (ast.Store, ast.Del))):
+                    return None
+            elif isinstance(n, ast.arg) and n.arg == name:
+                return None  # shadowed somewhere: keep it simple, not resolved
+        return v_ if n_bind == 1 else None
+
+    def requested_by(pc, fn, actuals):
+        """(the paths the parse() call pc inside fn requests, are ALL of them known?) - props, lists and objects alike; a list built up step by step: everything that MAY have been
+        appended / extended counts as requested."""
+        fdefs_ = local_defs(fn)
+        req, complete = set(), not any(isinstance(a, ast.Starred) for a in pc.args) and all(k.arg is not None for k in pc.keywords) and len(pc.args) <= len(pp8)
+
+        def value(x):
+            x = source.inline_node(x, fdefs_, no_calls=True)
+            use = {p_: v_ for p_, v_ in (actuals or {}).items() if p_ in loads_of(x)}
+            x = _subst(x, use) if use else x
+            # a module-level list / tuple of paths that nothing in the module updates (N9 propagates immutable literals only)
+            glob = {nm: module_paths(nm) for nm in loads_of(x) if nm not in fdefs_ and nm not in params_of(fn)}
+            glob = {nm: v_ for nm, v_ in glob.items() if v_ is not None}
+            return may_hold(_subst(x, glob) if glob else x)
+
+        def may_hold(x):
+            """the texts the expression MAY hold (a path that may have been requested counts as requested): literals, a + b, conditional expressions and `a or b` taken both ways,
+            [*a, ..], list / tuple / set / sorted / frozenset (a); a single text for an appended element."""
+            if isinstance(x, ast.Constant) and (x.value is None or isinstance(x.value, str)):
+                return x.value
+            if isinstance(x, (ast.List, ast.Tuple, ast.Set)):
+                out = set()
+                for e_ in x.elts:
+                    v_ = may_hold(e_.value if isinstance(e_, ast.Starred) else e_)
+                    out |= ({v_} if isinstance(v_, str) and not isinstance(e_, ast.Starred) else set(v_ or ()))
+                return out
+            if isinstance(x, ast.BinOp) and isinstance(x.op, ast.Add) and not isinstance(ev_or_none(x), str):
+                return set(may_hold(x.left) or ()) | set(may_hold(x.right) or ())
+            if isinstance(x, ast.IfExp):
+                a_, b_ = may_hold(x.body), may_hold(x.orelse)
+                return set([a_] if isinstance(a_, str) else a_ or ()) | set([b_] if isinstance(b_, str) else b_ or ())
+            if isinstance(x, ast.BoolOp) and isinstance(x.op, ast.Or):
+                out = set()
+                for v_ in x.values:
+                    m_ = may_hold(v_)
+                    out |= set([m_] if isinstance(m_, str) else m_ or ())
+                return out
+            if isinstance(x, ast.Call) and dotted(x.func) in ("list", "tuple", "set", "frozenset", "sorted") and len(x.args) == 1 and not x.keywords:
+                return set(may_hold(x.args[0]) or ())
+            return xev(x, {})
+
+        def ev_or_none(x):
+            try:
+                return xev(x, {})
+            except (CannotEval, TypeError):
+                return None
+
+        for pname, a_ in source.bind_args(pc, pf8).items():
+            if pname == pp8[0]:
                 continue
-            # reads of var that this assignment reaches: same function, until the name is re-bound by another parse
-            others = [n for n in walk_body(fn) if isinstance(n, ast.Assign) and n is not asg and any(isinstance(t, ast.Name) and t.id == var for t in n.targets)]
-            gfn = cfg_of(fn)
-            for rd_ in walk_body(fn):
-                key = None
-                if isinstance(rd_, ast.Call) and isinstance(rd_.func, ast.Attribute) and rd_.func.attr == "get" and isinstance(rd_.func.value, ast.Name) and rd_.func.value.id == var and rd_.args and isinstance(rd_.args[0], ast.Constant):
-                    key = rd_.args[0].value
-                elif isinstance(rd_, ast.Subscript) and isinstance(rd_.value, ast.Name) and rd_.value.id == var and isinstance(rd_.slice, ast.Constant) and isinstance(rd_.ctx, ast.Load):
-                    key = rd_.slice.value
-                if key is None or not isinstance(key, str):
-                    continue
+            try:
+                v_ = value(a_)
+                if v_ is not None:
+                    req |= set(v_)
+                if isinstance(a_, ast.Name):
+                    for m_ in own_nodes(fn):
+                        if isinstance(m_, ast.Call) and isinstance(m_.func, ast.Attribute) and isinstance(m_.func.value, ast.Name) and m_.func.value.id == a_.id and m_.args:
+                            if m_.func.attr == "append":
+                                req.add(value(m_.args[0]))
+                            elif m_.func.attr == "extend":
+                                req |= set(value(m_.args[0]))
+            except (CannotEval, TypeError):
+                complete = False
+        return req, complete
+
+    def updated_in_place(name, fn):
+        """some statement of fn adds / removes members of the dict `name` refers to."""
+        return any((isinstance(n, ast.Subscript) and isinstance(n.ctx, (ast.Store, ast.Del)) and isinstance(n.value, ast.Name) and n.value.id == name)
+                   or (isinstance(n, ast.Call) and isinstance(n.func, ast.Attribute) and n.func.attr in ("pop", "update", "setdefault", "clear", "popitem") and isinstance(n.func.value, ast.Name)
+                       and n.func.value.id == name) for n in own_nodes(fn))
+
+    def meet(results):
+        if not results or any(r is NotImplemented for r in results):
+            return NotImplemented
+        req = set(results[0][0])
+        for r in results[1:]:
+            req &= r[0]
+        return req, all(r[1] for r in results)
+
+    def parse_result(expr, fn, actuals=None, depth=0):
+        """(requested paths, all known?) when expr - evaluated inside fn - is the unchanged result of a selective parse; NotImplemented when it is not recognisably one."""
+        e = expr.value if isinstance(expr, ast.Await) else expr
+        if depth > 5:
+            return NotImplemented
+        if isinstance(e, ast.Name):
+            binds = [n for n in own_nodes(fn) if isinstance(n, ast.Assign) and any(e.id in stores_of(t) for t in n.targets)]
+            n_stores = sum(1 for n in own_nodes(fn) if isinstance(n, ast.Name) and isinstance(n.ctx, (ast.Store, ast.Del)) and n.id == e.id)
+            if not binds or n_stores != len(binds) or any(len(b.targets) != 1 or not isinstance(b.targets[0], ast.Name) for b in binds) \
+                    or e.id in params_of(fn) + [a.arg for a in fn.args.kwonlyargs] or updated_in_place(e.id, fn):
+                return NotImplemented
+            return meet([parse_result(b.value, fn, actuals, depth + 1) for b in binds])
+        if not isinstance(e, ast.Call):
+            return NotImplemented
+        callee = callee_of(e, fn)
+        if callee is pf8:
+            return requested_by(e, fn, actuals)
+        if callee is None or callee is fn or any(isinstance(x, (ast.Yield, ast.YieldFrom)) for x in own_nodes(callee)):
+            return NotImplemented
+        if isinstance(callee, ast.AsyncFunctionDef) != isinstance(expr, ast.Await):
+            return NotImplemented  # a coroutine object / an awaited plain value
+        rets = [n for n in own_nodes(callee) if isinstance(n, ast.Return)]
+        if not rets or any(r.value is None for r in rets):
+            return NotImplemented
+        fdefs_, inner = local_defs(fn), {}
+        for p_, a_ in source.bind_args(e, callee).items():
+            try:
+                x = source.inline_node(a_, fdefs_, no_calls=True)
+                use = {k_: v_ for k_, v_ in (actuals or {}).items() if k_ in loads_of(x)}
+                inner[p_] = _subst(x, use) if use else x
+            except CannotEval:
+                pass
+        return meet([parse_result(r.value, callee, inner, depth + 1) for r in rets])
+
+    def keyed_reads(recv_is, fn):
+        """(node, key) of the reads <recv>.get(<text key>[, default]) / <recv>[<text key>] in fn's own body whose receiver satisfies recv_is (keys through single-assignment locals)."""
+        fdefs_ = local_defs(fn)
+        for rd_ in own_nodes(fn):
+            kx = None
+            if isinstance(rd_, ast.Call) and isinstance(rd_.func, ast.Attribute) and rd_.func.attr == "get" and 1 <= len(rd_.args) <= 2 and not rd_.keywords and recv_is(rd_.func.value):
+                kx = rd_.args[0]
+            elif isinstance(rd_, ast.Subscript) and isinstance(rd_.ctx, ast.Load) and not isinstance(rd_.slice, ast.Slice) and recv_is(rd_.value):
+                kx = rd_.slice
+            if kx is None:
+                continue
+            try:
+                key = kx.value if isinstance(kx, ast.Constant) else ev(source.inline_node(kx, fdefs_, no_calls=True), {})
+            except (CannotEval, TypeError):
+                continue
+            if isinstance(key, str):
+                yield rd_, key
+
+    def own_stores(name, fn):
+        """{key: [statements of fn that store it into the dict `name`]} (reading such a key back says nothing about the parser)."""
+        out = {}
+        for n in own_nodes(fn):
+            if isinstance(n, ast.Subscript) and isinstance(n.ctx, ast.Store) and isinstance(n.value, ast.Name) and n.value.id == name and isinstance(n.slice, ast.Constant):
+                out.setdefault(n.slice.value, []).append(source.enclosing_stmt(n))
+        return out
+
+    def decide_read(fn, rd_, shown, key, req, complete, via=""):
+        if key not in req and not complete:
+            chk.adv("O19.8", f"{fn.name}: not all paths requested from parse() are literal lists (the read of `{shown}[{key!r}]` is not cross-checked)", rd_)
+            return
+        n8[0] += 1
+        chk.ob("O19.8", f"{fn.name}: `{shown}[{key!r}]` was requested from the parser" + via, key in req, rd_, "" if key in req else f"requested: {sorted(req)}",
+               key=f"{_R}:{source.qualname(fn)}:requested:{key}")
+
+    for fn in [n for n in ast.walk(rn.tree) if isinstance(n, _FUNCS)]:
+        gfn = None
+        # bindings of a local to a call: by assignment or by assignment expression
+        bindings = [(n, n.targets[0].id, n.value) for n in own_nodes(fn) if isinstance(n, ast.Assign) and len(n.targets) == 1 and isinstance(n.targets[0], ast.Name)] + \
+                   [(n, n.target.id, n.value) for n in own_nodes(fn) if isinstance(n, ast.NamedExpr) and isinstance(n.target, ast.Name)]
+        for asg, var, bval in bindings:
+            if not isinstance(bval.value if isinstance(bval, ast.Await) else bval, ast.Call):
+                continue
+            r8 = parse_result(bval, fn)
+            if r8 is NotImplemented:
+                continue
+            req, complete = r8
+            bstmt = source.enclosing_stmt(asg)
+            # reads of var that this binding reaches: same function, until the name is re-bound by ANY other statement
+            others = [st_ for st_ in own_nodes(fn) if isinstance(st_, ast.stmt) and st_ is not bstmt and not isinstance(st_, (ast.If, ast.For, ast.AsyncFor, ast.While, ast.Try, ast.With, ast.AsyncWith))
+                      and any(isinstance(x, ast.Name) and isinstance(x.ctx, (ast.Store, ast.Del)) and x.id == var for x in source.walk_local(st_))]
+            others += [st_ for st_ in own_nodes(fn) if isinstance(st_, (ast.If, ast.While)) and st_ is not bstmt and var in stores_of(st_.test)] + \
+                      [st_ for st_ in own_nodes(fn) if isinstance(st_, (ast.For, ast.AsyncFor)) and (var in stores_of(st_.target) or (st_ is not bstmt and var in stores_of(st_.iter)))] + \
+                      [st_ for st_ in own_nodes(fn) if isinstance(st_, (ast.With, ast.AsyncWith)) and any(i_.optional_vars is not None and var in stores_of(i_.optional_vars) for i_ in st_.items)]
+            gfn = gfn or cfg_of(fn)
+
+            def reached(node, asg=asg, bstmt=bstmt, others=others, gfn=gfn):
                 try:
-                    reached = gfn.path_exists(gfn.node_of(asg), gfn.node_of(rd_), avoid=[gfn.node_of(o_) for o_ in others if gfn.node_of(o_) is not gfn.node_of(rd_)])
+                    if source.enclosing_stmt(node) is bstmt and gfn.node_of(node) is gfn.node_of(asg):
+                        # the same statement: only a read written after an assignment expression sees its value (`(p := parse(..)).get(..)` is handled as a read on the source itself)
+                        return isinstance(asg, ast.NamedExpr) and (node.lineno, node.col_offset) > (asg.end_lineno, asg.end_col_offset)
+                    return gfn.path_exists(gfn.node_of(asg), gfn.node_of(node), avoid=[gfn.node_of(o_) for o_ in others if gfn.node_of(o_) is not gfn.node_of(node)])
                 except KeyError:
+                    return False
+
+            mine = own_stores(var, fn)
+
+            def stored_before(rd_, key, mine=mine, gfn=gfn):
+                """a store of that key by the function itself may reach the read (the right-hand side of the storing statement itself is evaluated before the store)."""
+                try:
+                    return any(st_ is not source.enclosing_stmt(rd_) and gfn.path_exists(gfn.node_of(st_), gfn.node_of(rd_)) for st_ in mine.get(key, []))
+                except KeyError:
+                    return True
+
+            for rd_, key in keyed_reads(lambda x, var=var: isinstance(x, ast.Name) and x.id == var, fn):
+                if reached(rd_) and not stored_before(rd_, key):
+                    decide_read(fn, rd_, var, key, req, complete)
+            # the result handed on to a helper: the reads of the parameter it arrives in
+            for c_ in [n for n in own_nodes(fn) if isinstance(n, ast.Call)]:
+                callee = callee_of(c_, fn)
+                if callee is None or callee is pf8 or callee is fn:
                     continue
-                if not reached:
-                    continue
-                n8 += 1
-                chk.ob("O19.8", f"{fn.name}: `{var}[{key!r}]` was requested from the parser", key in req, rd_, "" if key in req else f"requested: {sorted(req)}",
-                       key=f"{_R}:{source.qualname(fn)}:requested:{key}")
+                for p_, a_ in source.bind_args(c_, callee).items():
+                    if not (isinstance(a_, ast.Name) and a_.id == var) or not reached(c_):
+                        continue
+                    if any(isinstance(n, ast.Name) and isinstance(n.ctx, (ast.Store, ast.Del)) and n.id == p_ for n in own_nodes(callee)):
+                        continue  # the parameter is re-bound in the helper
+                    theirs = own_stores(p_, callee)
+                    for rd_, key in keyed_reads(lambda x, p_=p_: isinstance(x, ast.Name) and x.id == p_, callee):
+                        if all(st_ is source.enclosing_stmt(rd_) for st_ in theirs.get(key, [])):
+                            decide_read(callee, rd_, p_, key, req, complete, via=f" (the result parsed in {fn.name})")
+        # a read directly on a source expression: parse(r, ["cursor"]).get("cursor")
+        def unwrapped(x):
+            x = x.value if isinstance(x, ast.NamedExpr) else x
+            return x
+
+        for rd_, key in keyed_reads(lambda x: isinstance(unwrapped(x).value if isinstance(unwrapped(x), ast.Await) else unwrapped(x), ast.Call), fn):
+            recv = unwrapped(rd_.func.value if isinstance(rd_, ast.Call) else rd_.value)
+            r8 = parse_result(recv, fn)
+            if r8 is not NotImplemented:
+                decide_read(fn, rd_, short(recv, 30), key, r8[0], r8[1])
+    n8 = n8[0]
     if n8 >= 20:
         chk.ob("O19.8", "selective-parse consumers located", True, rn.tree, f"{n8} keyed read(s)")
     else:
@@ -2049,6 +2566,102 @@ def _B2_SHAPE(name, kind, rule=None, swap=None, swap2=None):
               "                len(parsed) == expected_props\n                and (expected_lists is None or len(parsed_lists) == expected_lists)\n                and (expected_objects is None or len(parsed_objects) == expected_objects)\n")]
 
 
+_SCROLL_DEF = "        async def _scroll_query(es, params):\n"
+_NEXT_PARSE = "                        props = parse(r, [\"timed_out\", \"took\"], [\"hits.hits\"])\n"
+_RAW_SEARCH_DEF = "    async def _raw_search(self, es, doc_type, index, body, params, headers=None):\n"
+_TOOK_SUM = "                        took += props.get(\"took\", 0)\n"
+
+
+def _b7(name, kind, helper, call, where=_SCROLL_DEF, rule=None, extra=()):
+    return [V(name, kind, _R, where, helper + where, rule), V("", kind, _R, _NEXT_PARSE, call)] + list(extra)
+
+
+_B7_SHAPES = [
+    V("later scroll pages no longer request timed_out (plain shape)", "break", _R, _NEXT_PARSE, "                        props = parse(r, [\"took\"], [\"hits.hits\"])\n", "O19.8"),
+    _b7("b7 shape: the selective parse of a scroll page moved into a nested helper that returns its result", "keep",
+        "        def _page_props(raw):\n            # later pages: only the flags and whether there are hits\n            return parse(raw, [\"timed_out\", \"took\"], [\"hits.hits\"])\n\n",
+        "                        props = _page_props(r)\n"),
+    _b7("b7 shape broken: the extracted helper no longer requests timed_out", "break",
+        "        def _page_props(raw):\n            return parse(raw, [\"took\"], [\"hits.hits\"])\n\n",
+        "                        props = _page_props(r)\n", rule="O19.8"),
+    _b7("b7 shape: helper method with the wanted properties as a parameter, result through a local", "keep",
+        "    @staticmethod\n    def _scroll_page_props(raw, wanted):\n        page_props = parse(raw, wanted, [\"hits.hits\"])\n        logging.getLogger(__name__).debug(\"page parsed\")\n        return page_props\n\n",
+        "                        props = self._scroll_page_props(r, [\"timed_out\", \"took\"])\n", where=_RAW_SEARCH_DEF),
+    _b7("b7 shape broken: the caller of the helper method asks for took only", "break",
+        "    @staticmethod\n    def _scroll_page_props(raw, wanted):\n        page_props = parse(raw, wanted, [\"hits.hits\"])\n        return page_props\n\n",
+        "                        props = self._scroll_page_props(r, [\"took\"])\n", where=_RAW_SEARCH_DEF, rule="O19.8"),
+    _b7("b7 shape: async helper that requests AND parses the next page", "keep",
+        "        async def _next_scroll_page(es, scroll_id):\n            raw = await es.perform_request(method=\"GET\", path=\"/_search/scroll\", body={\"scroll_id\": scroll_id, \"scroll\": \"10s\"}, params=None, headers=headers)\n"
+        "            return parse(raw, [\"timed_out\", \"took\"], [\"hits.hits\"])\n\n",
+        "                        props = await _next_scroll_page(es, scroll_id)\n"),
+    _b7("the parse result handed on to a helper that reads it", "keep",
+        "        def _took_of(page_props):\n            return page_props.get(\"took\", 0)\n\n", _NEXT_PARSE,
+        extra=[V("", "keep", _R, _TOOK_SUM, "                        took += _took_of(props)\n")]),
+    _b7("the parse result handed on to a helper that reads a path which was not requested", "break",
+        "        def _took_of(page_props):\n            return page_props.get(\"took\", 0)\n\n", "                        props = parse(r, [\"timed_out\"], [\"hits.hits\"])\n", rule="O19.8",
+        extra=[V("", "break", _R, _TOOK_SUM, "                        took += _took_of(props)\n")]),
+]
+
+_BULK_CLS = "class BulkIndex(Runner):\n"
+_ADD_REASON = "            error_details.add((data[\"status\"], error_reason))\n"
+_ADD_NONE = "            error_details.add((data[\"status\"], None))\n"
+_F29_KEY = "key=lambda d: (d[0], d[1] is not None, d[1] or \"\")"
+_SUMMARY_LOOPS = ("        status_counts = {}\n        for status, _ in error_details:\n            status_counts[status] = status_counts.get(status, 0) + 1\n        status_summaries = []\n"
+                  "        for status in sorted(status_counts.keys()):\n            status_summaries.append(f\"{status_counts[status]}x{status}\")\n        return \", \".join(status_summaries)\n")
+
+
+def _b8(name, kind, decl, ctor, key, rule=None, extra=()):
+    return [V(name, kind, _R, _BULK_CLS, decl + _BULK_CLS, rule),
+            V("", kind, _R, _ADD_REASON, "            error_details.add(" + ctor + "(data[\"status\"], error_reason))\n"),
+            V("", kind, _R, _ADD_NONE, "            error_details.add(" + ctor + "(status=data[\"status\"], reason=None))\n"),
+            V("", kind, _R, "sorted(error_details, " + _F29_KEY + ")", key)] + list(extra)
+
+
+_XD_METHOD = ("    def extract_error_details(self, error_details, data):\n        error_data = data.get(\"error\", {})\n"
+              "        error_reason = error_data.get(\"reason\") if isinstance(error_data, dict) else str(error_data)\n        if error_data:\n" + _ADD_REASON + "        else:\n" + _ADD_NONE + "\n")
+_XD_FUNCTION = ("def extract_error_details(error_details, data):\n    error_data = data.get(\"error\", {})\n    error_reason = error_data.get(\"reason\") if isinstance(error_data, dict) else str(error_data)\n"
+                "    if error_data:\n        error_details.add((data[\"status\"], error_reason))\n    else:\n        error_details.add((data[\"status\"], None))\n\n\n")
+_XD_PURE = ("    def extract_error_details(self, data):\n        error_data = data.get(\"error\", {})\n        if not error_data:\n            return data[\"status\"], None\n"
+            "        return data[\"status\"], (error_data.get(\"reason\") if isinstance(error_data, dict) else str(error_data))\n\n")
+_NT_DECL = "class BulkItemError(NamedTuple):\n    \"\"\"status and reason of a failed bulk item\"\"\"\n\n    status: int\n    reason: Optional[str] = None\n\n\n"
+_DC_EDITS = [("            status, reason = error_detail\n", "            status, reason = error_detail.status, error_detail.reason\n"),
+             ("        for status, _ in error_details:\n            status_counts[status] = status_counts.get(status, 0) + 1\n",
+              "        for detail in error_details:\n            status_counts[detail.status] = status_counts.get(detail.status, 0) + 1\n")]
+_B8_SHAPES = [
+    _b8("b8 shape: details as a NamedTuple, ordered by a key over the field names", "keep", _NT_DECL, "BulkItemError",
+        "sorted(error_details, key=lambda d: (d.status, d.reason is not None, d.reason or \"\"))",
+        extra=[V("", "keep", _R, "from typing import Optional\n", "from typing import NamedTuple, Optional\n")]),
+    _b8("b8 shape broken: the key over the NamedTuple fields compares the raw reason", "break", _NT_DECL, "BulkItemError",
+        "sorted(error_details, key=lambda d: (d.status, d.reason))", rule="O19.9"),
+    _b8("b8 shape broken: NamedTuple details sorted without a key", "break", _NT_DECL, "BulkItemError", "sorted(error_details)", rule="O19.9"),
+    _b8("details as collections.namedtuple, key by position", "keep", "BulkItemError = collections.namedtuple(\"BulkItemError\", \"status reason\")\n\n\n", "BulkItemError",
+        "sorted(error_details, " + _F29_KEY + ")"),
+    _b8("details as a frozen dataclass, ordered by an explicit key", "keep", "@dataclasses.dataclass(frozen=True)\nclass BulkItemError:\n    status: int\n    reason: Optional[str] = None\n\n\n", "BulkItemError",
+        "sorted(error_details, key=lambda d: (d.status, d.reason is not None, d.reason or \"\"))", extra=[V("", "keep", _R, a_, b_) for a_, b_ in _DC_EDITS]),
+    _b8("details as an ordered dataclass sorted without a key: the generated __lt__ compares None with str", "break",
+        "@dataclasses.dataclass(frozen=True, order=True)\nclass BulkItemError:\n    status: int\n    reason: Optional[str] = None\n\n\n", "BulkItemError",
+        "sorted(error_details)", rule="O19.9", extra=[V("", "break", _R, a_, b_) for a_, b_ in _DC_EDITS]),
+    # the extraction of one item's details in other places / shapes: located by role (adds to a collection parameter, reachable from both counting paths - or returns the detail,
+    # both paths add the result), not by being a method called through self
+    [V("extraction of the details moved to a module-level function", "keep", _R, _XD_METHOD, ""), V("", "keep", _R, _BULK_CLS, _XD_FUNCTION + _BULK_CLS),
+     V("", "keep", _R, "self.extract_error_details(error_details, data)", "extract_error_details(error_details, data)", count=2)],
+    [V("module-level extraction, details sorted without a key", "break", _R, _XD_METHOD, "", "O19.9"), V("", "break", _R, _BULK_CLS, _XD_FUNCTION + _BULK_CLS),
+     V("", "break", _R, "self.extract_error_details(error_details, data)", "extract_error_details(error_details, data)", count=2),
+     V("", "break", _R, "sorted(error_details, " + _F29_KEY + ")", "sorted(error_details)")],
+    [V("pure extraction: the method returns the detail, both counting paths add it", "keep", _R, _XD_METHOD, _XD_PURE),
+     V("", "keep", _R, "self.extract_error_details(error_details, data)", "error_details.add(self.extract_error_details(data))", count=2)],
+    [V("pure extraction, details ordered by the raw reason", "break", _R, _XD_METHOD, _XD_PURE, "O19.9"),
+     V("", "break", _R, "self.extract_error_details(error_details, data)", "error_details.add(self.extract_error_details(data))", count=2),
+     V("", "break", _R, _F29_KEY, "key=lambda d: (d[0], d[1])")],
+    [V("pure extraction, the predicate of the fast path forgets the status", "break", _R, _XD_METHOD, _XD_PURE, "O19.1"),
+     V("", "break", _R, "self.extract_error_details(error_details, data)", "error_details.add(self.extract_error_details(data))", count=2),
+     V("", "break", _R, "                " + _PRED_IF, "                if \"_shards\" in data and data[\"_shards\"][\"failed\"] > 0:")],
+    V("b8 shape: status summary counted with collections.Counter and ordered by its items", "keep", _R, _SUMMARY_LOOPS,
+      "        status_counts = Counter(status for status, _ in error_details)\n        return \", \".join(f\"{count}x{status}\" for status, count in sorted(status_counts.items()))\n"),
+    V("b8 shape broken: the Counter counts whole details, ordering its items compares None with str", "break", _R, _SUMMARY_LOOPS,
+      "        detail_counts = Counter(error_details)\n        return \", \".join(f\"{count}x{detail[0]}\" for detail, count in sorted(detail_counts.items()))\n", "O19.9"),
+]
+
 VARIANTS = [
     V("F17 guard dropped (harmless since F28: the finally removes the cursor on every exit) (search_after)", "keep", _R, "                if results.get(\"hits\") / size > page and page < total_pages:", "                if results.get(\"hits\") / size > page:", "O19.6"),
     V("F17 guard dropped (harmless since F28: the finally removes the cursor on every exit) (composite)", "keep", _R, "                if isinstance(after_key, dict) and page < total_pages:", "                if isinstance(after_key, dict):", "O19.6"),
@@ -2172,6 +2785,11 @@ VARIANTS = [
       "                        timed_out = True if timed_out else bool(props.get(\"timed_out\", False))\n"),
     V("flag accumulated with `and`: a later page turns it off", "break", _R, "                        timed_out = timed_out or props.get(\"timed_out\", False)\n",
       "                        timed_out = timed_out and props.get(\"timed_out\", False)\n", "O19.7"),
+    # ---- refactored shapes (benign round 3) ----
+    # b7: the selective parse sits in a helper that returns its result; the reads stay in the page loop (O19.8 follows the value, not the spelling `x = parse(..)`)
+    *_B7_SHAPES,
+    # b8: the error details are a small record type; counting with collections.Counter (O19.9 evaluates the construction and the Counter on values)
+    *_B8_SHAPES,
     # preserving
     V("predicate extracted into a local", "keep", _R, "                if data[\"status\"] > 299 or (\"_shards\" in data and data[\"_shards\"][\"failed\"] > 0):\n                    bulk_error_count += 1\n                    self.extract_error_details(error_details, data)\n                else:\n                    bulk_success_count += 1\n        stats = {\n            \"took\": props.get(\"took\"),",
       "                failed = data[\"status\"] > 299 or (\"_shards\" in data and data[\"_shards\"][\"failed\"] > 0)\n                if failed:\n                    bulk_error_count += 1\n                    self.extract_error_details(error_details, data)\n                else:\n                    bulk_success_count += 1\n        stats = {\n            \"took\": props.get(\"took\"),"),
